@@ -5,7 +5,8 @@
      static ENUMERATION_CACHE : Mutex<HashMap<Vec<i32>, usize>>       (the shared cursor map)
      Ddnnf::enumerate                                                   (one request)
 
-   Abstraction: for an assumption key A (the abs-sorted assumption list) the model has
+   Abstraction: for an assumption key A (Enumerate.enum_key: the assumption list sorted by feature,
+   repeated literals removed -- for consistent lists the SET of literals, Proofs/C17Key.v) the model has
    c = count(A) configurations in a fixed enumeration order (C06 models that order); here a
    configuration is its index 0..c-1 in that order.  `page start stop` is the list of indices
    [start, stop).  A request is (key, amount).
